@@ -5,3 +5,27 @@ From OV Require Import Base.Strs Syn.Escape Syn.Quote Lex.Pins_Lexer Gen.LexerGe
 Theorem C03_pin_aliases :
   lexer_ascii_aliases = pinned_lexer_ascii_aliases /\ lexer_token_patterns = pinned_lexer_token_patterns.
 Proof. exact (conj pin_lexer_ascii_aliases pin_lexer_token_patterns). Qed.
+
+From OV Require Import Syn.Ast Syn.Emitter Syn.StrictProfile Rt.TokRound Rt.StrictEmit.
+(* CANONICAL TEXT IS IN THE STRICT PROFILE, for every document of the safe class at every nesting depth: core documents,
+   and -- strict_emit_all -- documents with comments, lists (inline and multi-line, nested), META with one nested level,
+   section markers, block targets, literal zones (content exempt) and frontmatter.  The recogniser strict_profile is the
+   independent transcription of the property text (Syn/StrictProfile.v). *)
+Theorem C03_strict_emit_core :
+  forall sp d, core_doc d = true -> strict_safe_doc d = true -> strict_profile (emit sp d) = true.
+Proof. exact strict_emit_core. Qed.
+
+Theorem C03_strict_emit_all :
+  forall sp d, front_safe sp d = true -> strict_safe_doc d = true -> strict_profile (emit sp d) = true.
+Proof. exact strict_emit_all. Qed.
+
+(* the unrestricted statement is false of the faithful emitter model; the witnesses are in Rt/StrictEmit.v
+   (an EMPTY comment is written as `// ` with a trailing blank: reproduced on the code, see known findings) *)
+Definition C03_strict_emit_full : Prop := strict_emit_full.
+Theorem C03_strict_emit_full_refuted : ~ strict_emit_full.
+Proof. exact strict_emit_full_refuted. Qed.
+
+Theorem C03_strict_emit_nonvacuous :
+  (core_doc ex_core = true /\ strict_safe_doc ex_core = true /\ strict_profile (emit sp_ascii ex_core) = true) /\
+  (dfront ex_wide = None /\ strict_safe_doc ex_wide = true /\ strict_profile (emit sp_ascii ex_wide) = true).
+Proof. exact (conj ex_core_ok ex_wide_ok). Qed.
